@@ -24,6 +24,8 @@ CHUNK = 1
 
 EXPAT = [("hi", "hi", "lo", "lo"), ("lo", "lo", "hi", "hi"), ("hi", "lo", "hi", "lo"), ("mid", "hi", "lo", "mid"),
          ("lo", "mid", "mid", "hi"), ("mid", "mid", "mid", "mid"), ("hi", "hi", "hi", "hi")]
+# thorough tier: every remaining assignment of {lo, hi} to the four shells (indices 7..)
+EXPAT += [p_ for p_ in itertools.product(("lo", "hi"), repeat=4) if p_ not in EXPAT]
 
 
 def levels(ls):
@@ -35,10 +37,13 @@ def km_patterns(L, tier):
     if tier == "quick":
         return [((1, 1),) * 4]
     if L <= 4:
-        return [((1, 1),) * 4, ((2, 1), (1, 2), (3, 1), (1, 1)), ((3, 2), (2, 2), (1, 1), (2, 1))]
+        return [((1, 1),) * 4, ((2, 1), (1, 2), (3, 1), (1, 1)), ((3, 2), (2, 2), (1, 1), (2, 1)),
+                ((1, 2), (3, 1), (2, 2), (3, 2))]
     if L <= 8:
-        return [((1, 1),) * 4, ((2, 1), (1, 2), (1, 1), (2, 1)), ((1, 2), (2, 2), (2, 1), (1, 1))]
-    return [((1, 1),) * 4, ((2, 1), (1, 1), (1, 2), (1, 1)), ((1, 1), (1, 2), (2, 1), (1, 1))]
+        return [((1, 1),) * 4, ((2, 1), (1, 2), (1, 1), (2, 1)), ((1, 2), (2, 2), (2, 1), (1, 1)),
+                ((1, 1), (2, 1), (3, 2), (1, 2))]
+    return [((1, 1),) * 4, ((2, 1), (1, 1), (1, 2), (1, 1)), ((1, 1), (1, 2), (2, 1), (1, 1)),
+            ((1, 2), (1, 1), (1, 1), (2, 1))]
 
 
 BOYS_T = [12.0, 22.0, 27.0, 31.0, 45.0]
@@ -106,8 +111,8 @@ def ill_shells(ti, xy, place):
 
 def bounds(tier):
     return {"quartets": 256, "geometries": "general + one Boys-ladder separation per quartet" if tier == "quick" else "general, coincident, collinear + 5 Boys-ladder separations (rho R^2 = 12..45)",
-            "exponent_patterns": 2 if tier == "quick" else 5, "boys_ladder_patterns": "all-mid" if tier == "quick" else "all-mid, all-hi",
-            "contraction_patterns": 1 if tier == "quick" else 3, "ill_conditioned_quartets": len(TIGHT) * len(XY) * len(PLACE),
+            "exponent_patterns": 2 if tier == "quick" else len(EXPAT) - 2, "boys_ladder_patterns": "all-mid" if tier == "quick" else "all-mid, all-hi",
+            "contraction_patterns": 1 if tier == "quick" else 4, "ill_conditioned_quartets": len(TIGHT) * len(XY) * len(PLACE),
             "whole_bases": "2-4 shells, all type patterns, both notations"}
 
 
@@ -127,9 +132,7 @@ def configs(tier, seed):
         for g in qg:
             for ep in ([0, 1, 5] if tier == "quick" else range(len(EXPAT))):
                 for kp in range(len(km_patterns(sum(ls), tier))):
-                    if tier != "quick" and g != "general" and (ep >= 2 or kp == 2):
-                        continue
-                    if g.startswith("boys") != (ep >= 5):
+                    if g.startswith("boys") != (ep in (5, 6)):
                         continue  # patterns 5, 6 (all mid / all hi: large rho, so high Boys orders carry weight) <-> Boys ladder
                     if g.startswith("boys") and (kp != 0 or (tier == "quick" and ep != 5)):
                         continue
